@@ -5,8 +5,8 @@ truncation length and under every pattern of failing / short I/O calls, the inta
 panics unless the intact run does; the transcribed entry points of the reader (Model/IOProgReader.v) are in the fragment.
 
 Tie / search (this module):
-  T  truncation: every public read-API call (Open, Walk, Children, Attributes, ReadValue, Info, raw bytes, Read,
-     ReadStrings, ReadCompound) on every truncated copy of library-written and reference files (harness `c17trunc`:
+  T  truncation: every public read-API call (Open, Walk, Children, Attributes, ReadValue, Info, raw bytes, ReadSlice,
+     ReadHyperslab, ChunkIterator + Chunk, Read, ReadStrings, ReadCompound) on every truncated copy of library-written and reference files (harness `c17trunc`:
      one scratch copy, os.Truncate from the largest length downwards), compared call by call with the intact file.
   S  syscall-level fault injection with strace: the K-th pread64 of `c17dump <file>` fails with EIO, or returns 0
      (end of file), one process per K; the K-th pwrite64 / fsync / ftruncate / close of a write history (`c17whist`).
@@ -14,6 +14,9 @@ Tie / search (this module):
      local heap / group B-tree / symbol table nodes) over an io.ReaderAt that fails at call k, for every k, four kinds.
   P  parser level: the Coq programs of Model/IOProgReader.v and the Go parsers on the same images, cuts and faults
      (class and value), evaluated by coqc.
+  P2 slices: the Coq programs of Model/IOProgSlice.v and Dataset.ReadSlice / ReadHyperslab / ChunkIterator (+ Chunk) through
+     *os.File (`c17slice`, Dataset handle built without Open): same image, same cut (truncated copies) or same failing
+     pread64 (strace): class, the sequence of (offset, length) of the I/O calls, value.
 Gate per (file, cut / fault): no panic; every call of the intact file is present and its result is equal or an error;
 a call that errs on the intact file errs.  Anything else is a VIOLATION (or a KNOWN-FINDING when listed).
 """
@@ -27,6 +30,8 @@ TRUSTED = ["C17: the transcription of the reader's I/O skeleton (Model/IOProgRea
            "truncation / fault sweeps",
            "C17: strace's syscall tampering (inject=pread64/pwrite64/fsync/ftruncate/close) is the fault model of the public API; "
            "the in-process ReaderAt wrapper is the fault model of the internal entry points",
+           "C17: hdf5.VerifDatasetAt (harness overlay) builds a Dataset handle from (file, superblock, address) as loadObject does; the "
+           "slice tie uses it so that the pread64 calls of the process on the file are exactly those of the method under test",
            "C17: ReadAt on a range inside the file returns the file's bytes (os.File / pread64 semantics); zero-length reads do not occur"]
 ASSUMPTIONS = ["a torn tail after a crash is a prefix of the intact file (truncation), not arbitrary garbage",
                "a failing ReadAt returns a non-nil error, or fewer bytes than requested together with io.EOF"]
@@ -772,12 +777,17 @@ def parser_tie(ctx, lib, viol, cov, repaired=True, workdir=None, crafted=()):
         return 0
     H = ctx.harness
     rng = ctx.rng
-    small = [(t, p, c) for t, p, c in lib if os.path.getsize(p) <= 6000][: (5 if ctx.tier == "quick" else 12)]
+    small = [(t, p, c) for t, p, c in lib if os.path.getsize(p) <= 6000]
+    if ctx.tier == "quick":     # five of them + the one with a string dataset (ReadStrings)
+        small = small[:5] + [x for x in small[5:] if x[0] == "sb2-strings"]
+    small = small[:12]
     td = os.path.join(vlib.REPO, "testdata")
     for n in (TIE_REF if ctx.tier == "quick" else TIE_REF + TIE_REF_MORE):
         if os.path.exists(os.path.join(td, n)):
             small.append(("ref:" + n, os.path.join(td, n), None))
     vparts = ["From HV Require Import Base.Prelude Base.Outcome Base.Bytes Model.IOProg Model.IOProgReader Model.IOProgOpen Model.IOProgTie.\n"]
+    if os.path.exists(os.path.join(vlib.COQ, "theories", "Model", "IOProgSliceTie.v")):
+        vparts.append("From HV Require Import Model.IOProgSlice Model.IOProgSliceTie.\n")
     labels, total = [], 0
     stats = collections.Counter()
     KINDS = [("eio", 0, 0), ("eof0", 0, 1), ("shortn", 4, 5), ("shortn", 20, 21), ("shortn", 60, 61)]
@@ -786,7 +796,8 @@ def parser_tie(ctx, lib, viol, cov, repaired=True, workdir=None, crafted=()):
         size = len(img)
         targets = parser_targets(H, path)
         if ctx.tier == "quick" and len(targets) > 10:
-            targets = targets[:1] + [targets[i] for i in sorted(rng.sample(range(1, len(targets)), 9))]
+            av = [t for t in targets if t[0] in ("attrval", "strings", "compound")][:3]
+            targets = targets[:1] + [targets[i] for i in sorted(rng.sample(range(1, len(targets)), 9)) if targets[i] not in av] + av
         vparts.append('Definition img%d : bytes := unhex "%s".\n' % (fi, img.hex()))
         for ti, (op, addr, args) in enumerate(targets):
             ncuts = 12 if ctx.tier == "quick" else 120
@@ -816,8 +827,15 @@ def parser_tie(ctx, lib, viol, cov, repaired=True, workdir=None, crafted=()):
             vparts.append("Definition v_%s : val := %s.\n" % (name, coq_val(intact.get("v")) if intact["class"] == 0 else "VL []"))
             vparts.append("Definition %s : list (Z * Z * N * N * N) := [%s].\n" % (
                 name, ";".join("((%d)%%Z, (%d)%%Z, %d, %d, %d)" % (cut, k, code, r["class"], r["calls"]) for (cut, k, code), r in res)))
-            vparts.append("Definition bad_%s := Eval vm_compute in mismatches (tie_ok %s img%d %d v_%s) %s.\n" % (
-                name, op_code(op), fi, addr, name, name))
+            if op == "attrval":     # Model/IOProgSlice.v api_read_attribute with the variable-length string walk
+                vparts.append("Definition bad_%s := Eval vm_compute in mismatches (attrval_tie_ok img%d %d %d %d v_%s) %s.\n" % (
+                    name, fi, addr, args[0], args[1], name, name))
+            elif op in ("strings", "compound"):     # Model/IOProgSlice.v api_read_strings / api_read_compound
+                vparts.append("Definition bad_%s := Eval vm_compute in mismatches (read2_tie_ok %s img%d %d v_%s) %s.\n" % (
+                    name, op_code(op), fi, addr, name, name))
+            else:
+                vparts.append("Definition bad_%s := Eval vm_compute in mismatches (tie_ok %s img%d %d v_%s) %s.\n" % (
+                    name, op_code(op), fi, addr, name, name))
             labels.append(("bad_" + name, tag, op, addr, res, path))
             total += len(res)
     # hdf5.Open as a whole (Model/IOProgOpen.v p_open) on truncated copies: class and tree
@@ -867,10 +885,239 @@ def parser_tie(ctx, lib, viol, cov, repaired=True, workdir=None, crafted=()):
     return total
 
 
+# ----------------------------------------------------------------------------- P2: ReadSlice / ReadHyperslab / ChunkIterator vs Coq programs
+
+SLICE_OPS = {"slice": 0, "hyperslab": 1, "chunkiter": 2, "chunks": 3}
+_PREAD = re.compile(r", (\d+), (\d+)\)\s+= (-?\d+)")
+
+
+def strace_pread_trace(argv, stdin, inject=None, timeout=120, pathfilter=None):
+    """argv under strace: the (offset, length) of every pread64 (on pathfilter) in order; inject = (spec, when) tampers
+    with one of them.  The Go runtime itself preads cgroup files at start-up: hence the path filter."""
+    d = vlib.scratch()
+    log = os.path.join(d, "tr-%d-%d.log" % (os.getpid(), next(_ctr)))
+    cmd = ["strace", "-f", "-qq", "-o", log, "-e", "trace=pread64"]
+    if pathfilter:
+        cmd += ["-P", pathfilter]
+    if inject:
+        cmd += ["-e", "inject=pread64:%s:when=%d" % inject]
+    p = subprocess.run(cmd + argv, input=stdin, capture_output=True, text=True, timeout=timeout)
+    trace, injected = [], False
+    try:
+        for l in open(log, errors="replace"):
+            if "pread64" not in l or "unfinished" in l:
+                continue
+            m = _PREAD.search(l)
+            if m:
+                trace.append((int(m.group(2)), int(m.group(1))))
+            if "(INJECTED)" in l:
+                injected = True
+        os.remove(log)
+    except OSError:
+        pass
+    return p, trace, injected
+
+
+def slice_selections(t, rng, quick):
+    """(op, start, count, stride, block) for one dataset: valid ones of every path, an empty one, one out of bounds"""
+    dims = t["dims"]
+    n = len(dims)
+    sels = []
+    full = ([0] * n, list(dims))
+    sels.append(("slice",) + full + (None, None))
+    st = [rng.randrange(d) for d in dims]
+    cn = [rng.randrange(1, d - s + 1) for d, s in zip(dims, st)]
+    sels.append(("slice", st, cn, None, None))
+    if n >= 2:                                   # one row: a contiguous run of a multi-dimensional dataset
+        r = [rng.randrange(d) for d in dims[:-1]] + [0]
+        sels.append(("slice", r, [1] * (n - 1) + [dims[-1]], None, None))
+    # strided / blocked
+    stride = [2] * n
+    cnt = [max(1, (d + 1) // 2) for d in dims]
+    sels.append(("hyperslab", [0] * n, cnt, stride, None))
+    if all(d >= 5 for d in dims):
+        sels.append(("hyperslab", [1] * n, [max(1, (d - 1) // 3) for d in dims], [3] * n, [2] * n))
+    sels.append(("hyperslab", st, cn, None, None))
+    sels.append(("slice", [0] * n, [0] * n, None, None))                        # empty selection
+    sels.append(("slice", [0] * n, [d + 1 for d in dims], None, None))          # out of bounds: refused before any data I/O
+    sels.append(("hyperslab", [0] * n, list(dims), [1] * n, [2] * n))           # last block out of bounds
+    if t.get("layout") == 2:
+        sels.append(("chunkiter", [], [], None, None))
+        sels.append(("chunks", [], [], None, None))
+    if quick and len(sels) > 6:
+        keep = [sels[0], sels[1], sels[3]] + [x for x in sels if x[0] in ("chunkiter", "chunks")]
+        rest = [x for x in sels if x not in keep]
+        keep += rng.sample(rest, min(len(rest), 2))
+        sels = keep
+    return sels
+
+
+def coq_nlist(l):
+    return "[" + "; ".join(str(x) for x in l) + "]"
+
+
+def coq_sel(st, cn, sd, bk):
+    o = lambda x: "None" if x is None else "(Some %s)" % coq_nlist(x)
+    return "{| s_start := %s; s_count := %s; s_stride := %s; s_block := %s |}" % (coq_nlist(st), coq_nlist(cn), o(sd), o(bk))
+
+
+def slice_tie(ctx, lib, viol, cov, workdir):
+    """Model/IOProgSlice.v vs Dataset.ReadSlice / ReadHyperslab / ChunkIterator (through *os.File): same image, same cut
+    (in process, truncated copies) or same failing pread64 (strace): class, the sequence of (offset, length) of the I/O
+    calls made, and the value"""
+    mpath = os.path.join(vlib.COQ, "theories", "Model", "IOProgSliceTie.v")
+    if not os.path.exists(mpath) or not strace_ok():
+        cov["slice_tie"] = "Model/IOProgSliceTie.v or strace not present"
+        return 0
+    H, rng, quick = ctx.harness, ctx.rng, ctx.tier == "quick"
+    files = [(t, p) for t, p, _ in lib if os.path.getsize(p) <= 20000]
+    if quick:       # every image is a string literal coqc has to elaborate (about 0.15 s per KiB)
+        files = [f for f in files if f[0] in ("sb2-basic", "sb0-basic", "sb2-chunked", "sb2-filtered", "sb0-nested-chunked", "sb2-sessions")]
+    td = os.path.join(vlib.REPO, "testdata")
+    for n in ([] if quick else ["test_3d_chunked.h5", "gzip_test.h5", "v0.h5", "v2.h5", "v3.h5"]):
+        if os.path.exists(os.path.join(td, n)) and os.path.getsize(os.path.join(td, n)) <= 60000:
+            files.append(("ref:" + n, os.path.join(td, n)))
+    combos = []
+    for tag, path in files:
+        try:
+            p = subprocess.run([H, "c17slicetargets", path], capture_output=True, text=True, timeout=60)
+            tg = json.loads(p.stdout)
+        except Exception:
+            continue
+        tg = [t for t in tg if all(0 < d <= 64 for d in t["dims"]) and len(t["dims"]) <= 3]
+        if quick and len(tg) > 2:
+            tg = rng.sample(tg, 2)
+        for t in tg:
+            for sel in slice_selections(t, rng, quick):
+                combos.append((tag, path, t, sel))
+    if quick and len(combos) > 26:
+        fixed = [c for c in combos if c[3][0] in ("chunkiter", "chunks")][:4]
+        combos = fixed + rng.sample([c for c in combos if c not in fixed], 26 - len(fixed))
+    maxk = 6 if quick else 40
+    ncuts = 8 if quick else 60
+
+    def case_json(t, sel, **kw):
+        op, st, cn, sd, bk = sel
+        return json.dumps(dict(addr=t["addr"], op=op, start=st, count=cn, stride=sd, block=bk, **kw))
+
+    def intact_one(c):
+        tag, path, t, sel = c
+        p, tr, _ = strace_pread_trace([H, "c17slice", path], case_json(t, sel), pathfilter=path)
+        return c, (json.loads(p.stdout) if p.returncode == 0 and p.stdout.strip() else None), tr
+    jobs, recs = [], {}
+    with cf.ThreadPoolExecutor(WORKERS) as ex:
+        for ci, (c, r, tr) in enumerate(ex.map(intact_one, combos)):
+            if r is None:
+                continue
+            tag, path, t, sel = c
+            size = os.path.getsize(path)
+            recs[ci] = dict(c=c, intact=r, trace=tr, rows=[((-1, -1, 0), r, tr)])
+            n = len(tr)
+            ks = list(range(1, n + 1)) if n <= maxk else sorted(set([1, 2, n, n - 1] + [rng.randrange(1, n + 1) for _ in range(maxk - 4)]))
+            for k in ks:
+                for code, spec in ((0, "error=EIO"), (1, "retval=0")):
+                    jobs.append((ci, k, code, spec))
+            cuts = set([0, 48, size - 1] + [rng.randrange(size) for _ in range(ncuts // 2)])
+            for off, ln in tr[-(ncuts // 2):] + tr[:2]:
+                cuts.update([off, off + ln - 1, off + ln])
+            cuts = sorted(x for x in cuts if 0 <= x < size)
+            recs[ci]["cuts"] = cuts if len(cuts) <= ncuts else sorted(rng.sample(cuts, ncuts))
+
+    def fault_one(j):
+        ci, k, code, spec = j
+        tag, path, t, sel = recs[ci]["c"]
+        p, tr, inj = strace_pread_trace([H, "c17slice", path], case_json(t, sel), inject=(spec, k), pathfilter=path)
+        if not inj:
+            return j, None, tr
+        if p.returncode != 0 or not p.stdout.strip():
+            return j, dict(**{"class": 2}, err="process died rc=%d %s" % (p.returncode, p.stderr[-200:])), tr
+        return j, json.loads(p.stdout), tr
+
+    def cuts_one(ci):
+        tag, path, t, sel = recs[ci]["c"]
+        p = subprocess.run([H, "c17slice", path], input=case_json(t, sel, cuts=recs[ci]["cuts"], dir=workdir), capture_output=True, text=True, timeout=300)
+        return ci, (json.loads(p.stdout)["res"] if p.returncode == 0 and p.stdout.strip() else None)
+    stats = collections.Counter()
+    with cf.ThreadPoolExecutor(WORKERS) as ex:
+        for (ci, k, code, spec), r, tr in ex.map(fault_one, jobs):
+            if r is None:
+                stats["not-injected"] += 1
+                continue
+            recs[ci]["rows"].append(((-1, k - 1, code), r, tr))
+        for ci, res in ex.map(cuts_one, list(recs)):
+            if res is None:
+                stats["cuts-run-failed"] += 1
+                continue
+            for cut, r in zip(recs[ci]["cuts"], res):
+                recs[ci]["rows"].append(((cut, -1, 0), r, None))
+    # specification on the implementation's outputs + the cases for coqc
+    imgs, vparts, labels, total = {}, ["From HV Require Import Base.Prelude Base.Outcome Base.Bytes Model.IOProg Model.IOProgSlice Model.IOProgSliceTie.\n"], [], 0
+    for ci, rec in sorted(recs.items()):
+        tag, path, t, sel = rec["c"]
+        op = sel[0]
+        intact = rec["intact"]
+        desc = "%s %s@%d %s" % (tag, op, t["addr"], json.dumps(sel[1:]))
+        for (cut, k, code), r, tr in rec["rows"]:
+            stats["%s:%s" % (op, ("ok", "err", "panic")[r["class"]])] += 1
+            if r["class"] == 2 or (r["class"] == 0 and (intact["class"] != 0 or r.get("v") != intact.get("v"))):
+                viol.append(dict(what="%s: cut=%d failing pread64 #%d kind%d returns %s" % (desc, cut, k + 1, code, "a panic" if r["class"] == 2 else "a different value"),
+                                 failing_input=dict(kind="slice", file=path, tag=tag, target=t, sel=list(sel), cut=cut, fault=k, fault_code=code),
+                                 intact=intact, observed=r))
+        if path not in imgs:
+            imgs[path] = "simg%d" % len(imgs)
+            vparts.append('Definition %s : bytes := unhex "%s".\n' % (imgs[path], open(path, "rb").read().hex()))
+        name = "sl_%d" % ci
+
+        def cv(r):
+            if r["class"] != 0 or "v" not in r or op == "chunks":
+                return "None"
+            return "(Some (%s))" % coq_val(r["v"])
+
+        def ctr(tr):
+            if tr is None:
+                return "None"
+            acc = 7
+            for o, l in tr:
+                acc = (acc * 1000003 + o * 4099 + l + 1) % (1 << 64)
+            return "(Some (%d, %d))" % (len(tr), acc)
+        vparts.append("Definition %s : list (Z * Z * N * N * option (N * N) * option val) := [%s].\n" % (
+            name, ";\n ".join("((%d)%%Z, (%d)%%Z, %d, %d, %s, %s)" % (cut, k, code, r["class"], ctr(tr), cv(r)) for (cut, k, code), r, tr in rec["rows"])))
+        vparts.append("Definition bad_%s := Eval vm_compute in mismatches (slice_tie_ok %d %s %d %s) %s.\n" % (
+            name, SLICE_OPS[op], imgs[path], t["addr"], coq_sel(sel[1], sel[2], sel[3], sel[4]), name))
+        labels.append(("bad_" + name, rec, desc))
+        total += len(rec["rows"])
+    if not labels:
+        cov["slice_tie"] = "no usable dataset"
+        return 0
+    vparts.append("Definition ALLBADS := Eval vm_compute in [%s].\nPrint ALLBADS.\n" % ";".join("N.of_nat (List.length %s)" % l[0] for l in labels))
+    for l in labels:
+        vparts.append("Print %s.\n" % l[0])
+    out = vlib.coq_eval("".join(vparts), "c17slices")
+    counts = vlib.parse_nlist(out, "ALLBADS")
+    nbad = 0
+    for (lab, rec, desc), n in zip(labels, counts):
+        if n == 0:
+            continue
+        nbad += n
+        bad = vlib.parse_nlist(out, lab)
+        (cut, k, code), r, tr = rec["rows"][bad[0]]
+        tag, path, t, sel = rec["c"]
+        viol.append(dict(what="%s: Coq program and the Go call disagree at cut=%d failing pread64 #%d kind%d (Go class %d, %s I/O calls); %d of %d cases" % (
+                             desc, cut, k + 1, code, r["class"], "?" if tr is None else len(tr), n, len(rec["rows"])),
+                         case=dict(kind="slice", file=path, tag=tag, target=t, sel=list(sel), cut=cut, fault=k, fault_code=code, go_trace=tr), impl=r, nofail=True,
+                         correspondence="Model.IOProgSlice vs Go; theorems C17_read_slice_damage / C17_read_hyperslab_damage / C17_chunk_iterator_damage"))
+    cov["slice_tie"] = dict(cases=total, combos=len(labels), files=sorted(set(r["c"][0] for r in recs.values())),
+                            ops=dict(collections.Counter(r["c"][3][0] for r in recs.values())),
+                            layouts=dict(collections.Counter(str(r["c"][2].get("layout")) for r in recs.values())),
+                            outcomes=dict(stats), model_disagreements=nbad,
+                            sample=[dict(file=r["c"][0], sel=list(r["c"][3]), io_calls=len(r["trace"])) for r in list(recs.values())[:3]])
+    return total
+
+
 TIE_REF = ["v0.h5", "vlen_strings.h5"]
 TIE_REF_MORE = ["with_attributes.h5", "compound_test.h5", "test_3d_chunked.h5", "string_test.h5", "mathcad_document.h5", "with_groups.h5",
                 "test_attr_int32.h5", "reference_traverse.h5"]
-OPCODES = {"superblock": 0, "ohdr": 1, "attrs": 2, "lheap": 3, "snod": 4, "gbtree": 5, "gheap": 6, "read": 7}
+OPCODES = {"superblock": 0, "ohdr": 1, "attrs": 2, "lheap": 3, "snod": 4, "gbtree": 5, "gheap": 6, "read": 7, "attrval": 8, "strings": 9, "compound": 10}
 
 
 def op_code(op):
@@ -945,6 +1192,9 @@ def run(ctx):
     t = time.time()
     npar = parser_tie(ctx, lib, viol, cov, repaired, workdir, crafted)
     timings["parser_tie_s"] = round(time.time() - t, 1)
+    t = time.time()
+    npar += slice_tie(ctx, lib, viol, cov, workdir)
+    timings["slice_tie_s"] = round(time.time() - t, 1)
     # known findings
     listed = {k["id"]: k for k in vlib.known_findings("C17")}
     keep = []
@@ -1042,6 +1292,25 @@ def replay(ctx, path):
         rows = [json.loads(l) for l in p.stdout.splitlines() if l.strip()]
         bad = [r for r in rows if r.get("diffs")]
         print(json.dumps(bad[:3], indent=1)[:4000])
+    elif k == "slice":
+        fpath = fi["file"]
+        if not os.path.exists(fpath):       # library-written files are rebuilt from the fixed histories
+            lib, _ = make_lib_files(H, work)
+            tagged = {t: p for t, p, _ in lib}
+            fpath = tagged.get(fi.get("tag"), fpath)
+        op, st, cn, sd, bk = fi["sel"]
+        case = dict(addr=fi["target"]["addr"], op=op, start=st, count=cn, stride=sd, block=bk)
+        base = json.loads(subprocess.run([H, "c17slice", fpath], input=json.dumps(case), capture_output=True, text=True).stdout)
+        if fi["cut"] >= 0:
+            got = json.loads(subprocess.run([H, "c17slice", fpath], input=json.dumps(dict(case, cuts=[fi["cut"]], dir=work)),
+                                            capture_output=True, text=True).stdout)["res"][0]
+        else:
+            p, tr, inj = strace_pread_trace([H, "c17slice", fpath], json.dumps(case),
+                                            inject=(("error=EIO" if fi["fault_code"] == 0 else "retval=0"), fi["fault"] + 1), pathfilter=fpath)
+            got = json.loads(p.stdout) if p.stdout.strip() else {"class": 2, "err": p.stderr[-300:]}
+            print("injected:", inj, "trace:", tr)
+        print("intact:", json.dumps(base)[:600]); print("damaged:", json.dumps(got)[:600])
+        bad = [1] if (got["class"] == 2 or (got["class"] == 0 and (base["class"] != 0 or got.get("v") != base.get("v")))) else []
     elif k == "parser":
         img = open(fpath, "rb").read().hex()
         r = vlib.run_harness(H, "c17parse", [dict(img=img, op=fi["op"], addr=fi["addr"], args=fi.get("args", []), kind=fi.get("fault_kind", "eio"),
